@@ -215,7 +215,17 @@ fn chk_codec(c: Compression, kind: u64, size: usize, seed: u64) -> Result<(), St
         let mut r = pmtiles2::util::decompress(c, &mut cur).map_err(|e| e.to_string())?;
         let mut back = Vec::new();
         let mut buf = vec![0u8; if round == 0 { 1 } else { rng.range(1, 5000) as usize }];
+        let mut reads = 0usize;
         loop {
+            // a read into an empty buffer in the middle of the stream answers 0 and changes nothing (std::io::Read's
+            // contract; the zstd adapter refuses such a read, so it is left out there)
+            if c != Compression::ZStd && reads % 3 == 1 {
+                let z = r.read(&mut []).map_err(|e| format!("streaming read into an empty buffer: {e}"))?;
+                if z != 0 {
+                    return Err("a read into an empty buffer returned a non-zero count".into());
+                }
+            }
+            reads += 1;
             let n = r.read(&mut buf).map_err(|e| format!("streaming read: {e}"))?;
             if n == 0 {
                 break;
